@@ -10,8 +10,12 @@ EXPLANATION = ("R1: every array-indexed copy of the BLAKE3 round function is eva
                "7-round compress_pre from the spec state layout, rust_sse2/sse41/avx2.rs round, reference_impl round, and "
                "(rule R1c) the C copies blake3_portable.c g/round_fn/compress_pre, blake3_sse2/sse41/avx2.c round_fn and "
                "blake3_avx512.c round_fn4/8/16. R2: feed-forward st[i]^st[i+8] (and st[i+8]^cv[i] for the XOF form). "
-               "See the property's residual in DESIGN.md: shuffle-based single-block kernels, transposition networks, "
-               "lane-counter carries and the semantics of the assembly bodies are NOT decided by R1.")
+               "K4: every load_counters* (C sse2/sse41/avx2/avx512 x3; Rust sse2/sse41/avx2) is decided lane by lane by an "
+               "exact piecewise-affine abstract interpretation over the counter's low word with partition refinement: lane i "
+               "= (lo32, hi32)(counter + i*increment) on every cell, for both increment modes. K5: the 16 rows of every transposed state (C hash4/8/16, xof4/8/16; Rust hash4/hash8) are "
+               "h_vecs[0..8] = set1(key|cv[i]), set1(IV[0..4]), counter lo, counter hi (the two outputs of load_counters*), block length, flags. "
+               "See the property's residual in DESIGN.md: shuffle-based single-block kernels, transposition networks "
+               "and the semantics of the assembly bodies are NOT decided by R1.")
 TRUSTED = ["rustc nightly MIR; clang JSON AST", "engines/rules/symexec.py term normal form", "engines/specmodel/blake3_spec.py G network",
            "vendor intrinsics _mm*_add_epi32 / xor / or / srli / slli / ror are lane-wise 32-bit operations"]
 ASSUMPTIONS = ["the transposed kernels are lane-parallel by construction (each lane is one independent hash)"]
@@ -31,6 +35,10 @@ def run(ctx):
     ctx.run_rule("M3", r_ffi.rule_M3, ["pure-full"])
     ctx.run_rule("A9", r_asm.rule_A9)
     ctx.run_rule("K1asm", r_asm.rule_K1asm)
+    ctx.run_rule("K4c", r_round.rule_K4_c)
+    ctx.run_rule("K4r", r_round.rule_K4_rust, ["pure-full"])
+    ctx.run_rule("K5c", r_round.rule_K5_c)
+    ctx.run_rule("K5r", r_round.rule_K5_rust, ["pure-full"])
     for name in ("rule_R1_c",):
         if hasattr(r_round, name):
             ctx.run_rule("R1c", getattr(r_round, name))
